@@ -44,17 +44,32 @@ def exposed(f):
     return f["init"] and f["cmd"]
 
 
-def value_text(v):
-    """how argparse's `%(default)s` renders the value"""
-    if v[0] == "int":
-        return str(v[1])
-    if v[0] == "str":
+def py_value(v):
+    """the Python value of a ["int", 3] / ["str", "q"] / ["float", "0.5"] / ["bool", true] / ["list", [64, 64]] description"""
+    k = v[0]
+    if k in ("int", "str", "bool"):
         return v[1]
+    if k == "float":
+        return float(v[1])
+    if k == "list":
+        return list(v[1])
     return None  # "none" / "req"
 
 
-def py_value(v):
-    return v[1] if v[0] in ("int", "str") else None
+def value_text(v):
+    """how argparse's `%(default)s` renders the value"""
+    x = py_value(v)
+    return None if x is None else str(x)
+
+
+def is_falsy(v):
+    return v[0] in ("int", "str", "float", "bool", "list") and not py_value(v)
+
+
+def field_type(f):
+    from typing import List
+
+    return {"str": str, "float": float, "bool": bool, "list": List[int]}.get(f.get("type") or f["default"][0], int)
 
 
 # --------------------------------------------------------------------------------------------------
@@ -124,9 +139,11 @@ def _classes(case):
             return memo[tree["cls"]]
         flds = []
         for f in tree["fields"]:
-            typ = str if f["default"][0] == "str" else int
+            typ = field_type(f)
             kw = {}
-            if f["default"][0] != "req":
+            if f["default"][0] == "list":
+                kw["default_factory"] = list(f["default"][1]).copy
+            elif f["default"][0] != "req":
                 kw["default"] = py_value(f["default"])
             if not f["init"]:
                 kw["init"] = False
